@@ -364,21 +364,25 @@ theorem mpub_mwire (conf : Conf) (s : ConnState) (b : Broker) (cmd t : Bytes) (t
   have hrl := readLen_mwire batch hlen
   generalize mwire batch = w at hrl ⊢
   rw [mpub]
-  simp only [hv, Bool.not_true, Bool.false_eq_true, if_false, hauth, hrl]
+  simp only [hv, Bool.not_true, Bool.false_eq_true, if_false, hauth, hrl, Int.toNat_natCast, List.take_length,
+    List.drop_length, List.append_nil]
   rfl
 
 attribute [irreducible] mwire
 
 theorem doMPUB_binary (hc : HConf) (b : Broker) (rq : Request) (kv : List (Bytes × Bytes)) (t : Bytes)
     (hq : parseQuery rq.rawQuery = some kv) (ht : qget kv kTopic = some t) (hbin : binaryMode kv = true)
-    (hv : isValidName t = true) (hcl : ¬ rq.contentLength > hc.maxBodySize) :
+    (hv : isValidName t = true) (hcl : ¬ rq.contentLength > hc.maxBodySize)
+    (hfit : (rq.body.length : Int) ≤ hc.maxBodySize) :
     doMPUB hc b rq =
       match Mpub.readMPUB hc.maxMsgSize hc.maxBodySize rq.body with
       | .err c => resp .s413 (codeTail c) (getTopic b t)
       | .panic => resp .s500 "INTERNAL_ERROR" (getTopic b t)
       | .ok bodies _ => resp .s200 "OK" (publish b t (toMsgs bodies)) := by
+  have htake : rq.body.take hc.maxBodySize.toNat = rq.body := by
+    apply List.take_of_length_le; omega
   rw [doMPUB, if_neg hcl, topicFromQuery_of _ _ _ hq ht, if_pos hv]
-  simp only [hq, Option.getD_some, hbin, if_true]
+  simp only [hq, Option.getD_some, hbin, if_true, htake]
   rfl
 
 /-- Binary `/mpub?topic=t&binary=true` with body `batch` against `MPUB t` + size + `batch`: accepted
@@ -414,7 +418,7 @@ theorem mpub_binary_equiv (conf : Conf) (hc : HConf) (hl : Linked conf hc) (s : 
     · have hcl : ¬ rq.contentLength > hc.maxBodySize := by
         rcases hcomp with h | ⟨h, _⟩ <;> omega
       have hbig' : ¬ (rq.body.length : Int) > conf.maxBodySize := by rw [← hl.body]; exact hbig
-      rw [doMPUB_binary hc b rq kv t hq ht hbin hv hcl, hl.msg, hl.body]
+      rw [doMPUB_binary hc b rq kv t hq ht hbin hv hcl (by omega), hl.msg, hl.body]
       by_cases h0 : (rq.body.length : Int) ≤ 0
       · rw [if_pos h0]
         have hnil : rq.body = [] := by
